@@ -494,8 +494,13 @@ class DataFormat(object):
 
         # TODO: Handle 'none' properly.
         assert result_code is not None
-        assert result_code >= 0
-        result = chr(result_code)
+        try:
+            result = chr(result_code)
+        except (OverflowError, ValueError):
+            raise errors.InterfaceError(
+                "value for %s must be a valid character code but is: %s" % (name_for_errors, _compat.text_repr(value)),
+                location,
+            )
         return result
 
     def validate(self):
